@@ -313,6 +313,7 @@ type H struct {
 	policy      map[string][]codes.Code // upcoming answers per target
 	poison      map[string]poisoned     // a value the device of a target refuses every time
 	focusCrash  map[string]int          // target -> number of its proposal invocations cut so far (scripted crash histories)
+	holdSucc    map[string]uint64       // target -> index: proposals of the target above that index are not scheduled yet
 	txR         *txctl.Reconciler
 	propR       *propctl.Reconciler
 	cfgR        *cfgctl.Reconciler
@@ -356,7 +357,7 @@ func hx(s string) string {
 }
 
 func newH(seed int64, hid string, out *bufio.Writer, ntargets int, persistent map[string]bool) *H {
-	h := &H{devs: map[string]*fakes.Device{}, devPos: map[string]int{}, policy: map[string][]codes.Code{}, poison: map[string]poisoned{}, focusCrash: map[string]int{},
+	h := &H{devs: map[string]*fakes.Device{}, devPos: map[string]int{}, policy: map[string][]codes.Code{}, poison: map[string]poisoned{}, focusCrash: map[string]int{}, holdSucc: map[string]uint64{},
 		crash: &crashCtl{budget: -1, race: -1, readFault: -1}, r: rand.New(rand.NewSource(seed)), out: out, hid: hid, knownC: map[string]bool{}, lastVerdict: -1,
 		raw: map[configapi.ConfigurationID]_map.Map[string, *configapi.PathValue]{}}
 	h.rs = h.r
@@ -785,7 +786,19 @@ func (h *H) allIDs() []recID {
 }
 
 // reconcile runs one reconcile invocation, stopping it after `budget` store/device write calls (-1: no limit)
+// held: the scheduler leaves this id alone for now (a legitimate schedule: the id is just late).  Used by the scripted
+// refusal: the successors of the poisoned proposal are first examined while its device call is in flight.
+func (h *H) held(id recID) bool {
+	if t, ok := h.holdSucc[id.a]; ok && id.kind == "prop" && id.idx > t && h.nesting == 0 {
+		return true
+	}
+	return false
+}
+
 func (h *H) reconcile(id recID, budget int) {
+	if h.held(id) {
+		return
+	}
 	// crash histories of the scripted refusal: the invocations of the proposals of the refusing target that are in their apply phase
 	// are cut after their 2nd, 1st, 3rd, 2nd ... call for a while, so that every cut point of the refusal branch is met
 	if n, ok := h.focusCrash[id.a]; ok && id.kind == "prop" && budget < 0 && h.nesting == 0 && n < 6 {
@@ -810,7 +823,7 @@ func (h *H) reconcile(id recID, budget int) {
 			h.crash.mu.Lock()
 			h.crash.readFault = h.r.Intn(3)
 			h.crash.mu.Unlock()
-		} else if id.kind == "prop" && h.r.Intn(2) == 0 {
+		} else if _, holding := h.holdSucc[id.a]; id.kind == "prop" && (holding || h.r.Intn(2) == 0) {
 			// while the device call of this invocation (if it makes one) is in flight, another invocation about the
 			// same target runs
 			h.crash.mu.Lock()
@@ -1311,9 +1324,16 @@ func (h *H) interfere(outer recID) {
 	if len(succ) > 0 && h.r.Intn(4) != 0 {
 		cands = succ
 	}
+	delete(h.holdSucc, outer.a) // the successors may run from now on
 	h.nesting++
 	h.midcalls++
-	h.reconcile(cands[h.r.Intn(len(cands))], -1)
+	pick := cands[h.r.Intn(len(cands))]
+	h.reconcile(pick, -1)
+	if pick.kind == "prop" && pick.a == outer.a && pick.idx > outer.idx {
+		// a fresh proposal first enters its initialize phase and links to its predecessor in its next invocation
+		h.reconcile(pick, -1)
+		h.reconcile(pick, -1)
+	}
 	h.nesting--
 }
 
@@ -1324,6 +1344,9 @@ func (h *H) settle(maxPasses int, crashProb int) bool {
 	for p := 0; p < maxPasses; p++ {
 		// injected faults only in the first passes: a pass in which invocations were made to fail says nothing about rest
 		h.faults = faults && p < 6
+		if p >= 40 {
+			h.holdSucc = map[string]uint64{}
+		}
 		before := h.lastState
 		n0 := h.devTotal()
 		ids := h.allIDs()
@@ -1670,6 +1693,9 @@ func runScenario(seed int64, n int, out *bufio.Writer, kind string, suffix strin
 		// the second change is submitted either at once (it queues behind the first on every target: its proposals are
 		// being linked while the first is applied) or after the first has run its course
 		early := r.Intn(4) != 0
+		if early && kind == "atomic" {
+			h.holdSucc[bad] = uint64(h.e.NumTx()) // the index of the poisoned change: later proposals of the target wait
+		}
 		if !early {
 			h.randomSteps(30+h.r.Intn(30), crashProb)
 			h.settle(40, crashProb)
